@@ -346,7 +346,8 @@ class ProviderDispatcher(BaseProvider):
             prop_cls = creation_class.properties[pn]
 
             if prop_cls.qualifiers.get('key', False) and \
-                    prop_inst.value != instance[pn]:
+                    (prop_inst.value is None or
+                     prop_inst.value != instance[pn]):
                 raise CIMError(
                     CIM_ERR_INVALID_PARAMETER,
                     _format("Property {0!A} in the instance is a key "
